@@ -90,6 +90,7 @@ static struct {
     int accept_errno, accept_times;
     int write_errno, write_skip;          /* answers a write on a library descriptor, after write_skip other writes */
     int close_eio;                        /* next close of a library descriptor closes it and reports EIO */
+    int close_eintr;                      /* the next n closes of a library descriptor are interrupted before anything happened (descriptor stays open): the library's own retry loop is written for this model */
     int consumed;
 } inj;
 
@@ -269,6 +270,11 @@ int __wrap_close(int fd)
         return __real_close(fd);
     }
     count_call("close");
+    if (inj.close_eintr > 0) {
+        inj.close_eintr--; inj.consumed++;
+        TRACE("close(%d) = -1 EINTR [injected; descriptor still open]", fd);
+        errno = EINTR; return -1;
+    }
     int r = __real_close(fd);
     int e1 = errno;
     ledger_close(fd);
@@ -972,7 +978,7 @@ static void lifecycle_case(void)
             if (outcome) vh_count("lifecycle_recv_with_data", 1);
             if (g) spif_str_del(g);
         } else if (r < 80) { i = pick_live(); opc = 6; st = state_class(i);
-            if (injecting) inj.close_eio = 1;
+            if (injecting) { if (vh_coin(50)) inj.close_eio = 1; else { inj.close_eintr = (int) vh_range(1, 3); vh_count("close_interrupted_before_it_happened", 1); } }
             outcome = op_close(i);
             if (inj.consumed) vh_count("close_with_injected_EIO", 1);
         } else if (r < 87) { i = pick_live(); opc = 7; st = state_class(i);
